@@ -145,6 +145,21 @@ impl Scenario for C16 {
       Some(t) if !run.emit_stamps.iter().any(|s| *s >= t.seq_out) => run.spawn_stamps.iter().filter(|s| **s > t.seq_out).count() as u64,
       _ => 0,
     };
+    // inner observables of a flattening operator subscribed after the terminal,
+    // beyond those whose outer item itself only arrived after the terminal (an
+    // item in flight in a delay / observe_on task): they had been waiting for a
+    // slot and were started for nobody
+    let late_inner_subs = match term {
+      Some(t) => (run.inner_sub_stamps.iter().filter(|s| **s > t.seq_out).count() as u64).saturating_sub(run.inner_build_stamps.iter().filter(|s| **s > t.seq_out).count() as u64),
+      _ => 0,
+    };
+    if violation.is_none() && late_inner_subs > 0 {
+      violation = Some(Violation {
+        rule: "c16.queued-inner-started-after-terminal".into(),
+        site: site.clone(),
+        detail: format!("`{}`: {} inner observable(s) that had been waiting for a slot of the flattening operator were subscribed after the subscriber's terminal had been delivered", run.trace.trim(), late_inner_subs),
+      });
+    }
     let evs: Vec<Ev> = run.recs.iter().map(|r| r.ev.clone()).collect();
     let mut h = hash_str(&run.trace);
     for r in &run.recs {
@@ -158,7 +173,7 @@ impl Scenario for C16 {
       sim_ns: run.sim_ns,
       steps: case.acts.len() as u64,
       faults: vec![("early_termination_reached", term.is_some() as u64), ("clock_jump_over_2_deadlines", run.clock_jumps)],
-      reach: vec![("probe_terminated_with_unbounded_producer_upstream", term.is_some() as u64), ("info:tasks_spawned_after_the_terminal(no hot emission afterwards)", late_spawns)],
+      reach: vec![("probe_terminated_with_unbounded_producer_upstream", term.is_some() as u64), ("info:tasks_spawned_after_the_terminal(no hot emission afterwards)", late_spawns), ("info:queued_inner_observables_started_after_the_terminal", late_inner_subs)],
       resolved: None,
       sample: format!(
         "{} {}: {} => [{}] idle={} idle_at={:?}ms pulls={} polls={}",
